@@ -956,7 +956,11 @@ func rulesC13(w *World, o *Out) {
 		o.Count("C13.R3 prune-time Jail sites", len(js), 1)
 		// the 10 % floor closure
 		var floor *ssa.Function
-		for _, an := range jv.AnonFuncs {
+		cands := append([]*ssa.Function{}, jv.AnonFuncs...)
+		if u := unitOf(jv); len(u) > 1 {
+			cands = append(cands, u[1:]...) // the predicate may have been given a name
+		}
+		for _, an := range cands {
 			for _, s := range CallsIn(an) {
 				if _, ok := cmpMethods[s.Callee.Name]; ok && s.Callee.Pkg == "cosmossdk.io/math" {
 					floor = an
@@ -998,6 +1002,9 @@ func rulesC13(w *World, o *Out) {
 				if f.Kind == FFalse {
 					if c, ok := canon(f.V).(*ssa.Call); ok {
 						if mc, ok := c.Call.Value.(*ssa.MakeClosure); ok && mc.Fn == floor {
+							okF = true
+						}
+						if floor != nil && c.Call.StaticCallee() == floor {
 							okF = true
 						}
 					}
